@@ -173,9 +173,16 @@ public:
     if (list.endItem.prev == 0)
       return position;
     Iterator pos = position;
-    Iterator result = insert(pos, list._begin.item->value);
-    for(const Item* i = list._begin.item->next, * end = &list.endItem; i != end; i = i->next)
+    const Item* i = list._begin.item;
+    const Item* last = list.endItem.prev;
+    Iterator result = insert(pos, i->value);
+    while(i != last)
+    {
+      i = i->next;
+      if(i == result.item) // the list is inserted into itself: skip the items inserted so far
+        i = pos.item;
       insert(pos, i->value);
+    }
     return result;
   }
 
